@@ -2,12 +2,12 @@ SPECIFICATION Spec
 CONSTANTS
   Chars <- SmallChars
   MaxRows = 2
-  MaxCells = 1
+  MaxCells = 2
   MaxLen = 1
-  FeatureSets <- SomeFeatures
+  FeatureSets <- StructureFeatures
   Sheets <- OneSheet
   CollectAllText = TRUE
-  ExpandRowRepeats = FALSE
+  ExpandRowRepeats = TRUE
   DescendsIntoRowContainers = TRUE
   ReadsCoveredCells = TRUE
 INVARIANT TypeOK
